@@ -301,6 +301,15 @@ func runC02(r *core.Run) {
 	for _, f := range fanouts {
 		cases = append(cases, dirCase{Builder: "sharded", Fanout: f, Names: []string{ca, cb}}, dirCase{Builder: "sharded", Fanout: f, Names: []string{cb, "k75", ca}})
 	}
+	// names that are not valid UTF-8 (dag-pb names are byte strings in practice):
+	// nothing on the way may pass them through a rune conversion
+	bu := []string{"\xff", "\xfe", "caf\xe9.txt", "\xc3", "ok", "\xef\xbf\xbd"}
+	for mask := 1; mask < 1<<uint(len(bu)); mask++ {
+		for _, f := range []int{8, 256} {
+			cases = append(cases, dirCase{Builder: "sharded", Fanout: f, Names: gen.SubsetOf(bu, mask)})
+		}
+		cases = append(cases, dirCase{Builder: "auto", Names: gen.SubsetOf(bu, mask)})
+	}
 	r.Set("extreme_universe", xu)
 	cases = append(cases, dirCase{Builder: "threshold-plain"}, dirCase{Builder: "threshold-sharded"})
 	cases = append(cases, dirCase{Builder: "sharded", Fanout: 256, NGen: 2000}, dirCase{Builder: "sharded", Fanout: 8, NGen: 600})
